@@ -118,6 +118,35 @@ func (c *Ctx) defaultsWiring(rule string, prefixes ...string) {
 						}
 						check(unwrapConv(info, a), sig.Params().At(i).Name(), a)
 					}
+					// an argument that carries the name of ANOTHER parameter of the callee is in the wrong
+					// position (NewKamaWith(fastScPeriod, erPeriod, ..) for (erPeriod, fastScPeriod, ..))
+					if fn := callee(info, x); fn != nil && fn.Pkg() != nil && strings.HasPrefix(fn.Pkg().Path(), load.ModulePath) {
+						pidx := map[string]int{}
+						for i := 0; i < sig.Params().Len(); i++ {
+							if nm := sig.Params().At(i).Name(); nm != "" && nm != "_" {
+								pidx[nm] = i
+							}
+						}
+						for i, a := range x.Args {
+							if i >= sig.Params().Len() || (sig.Variadic() && i >= sig.Params().Len()-1) {
+								break
+							}
+							id, isID := unwrapConv(info, a).(*ast.Ident)
+							if !isID {
+								continue
+							}
+							j, named := pidx[id.Name]
+							if !named {
+								continue
+							}
+							run.Count("named_arguments", 1)
+							good := j == i || !types.Identical(sig.Params().At(i).Type(), sig.Params().At(j).Type())
+							run.Oblige(good)
+							if !good {
+								c.violate(rule, rel+"."+fn.Name(), "argument "+id.Name, a.Pos(), fmt.Sprintf("`%s` is passed as the parameter `%s` of %s, which has a parameter named `%s` of the same type at another position: the two configuration values are swapped", id.Name, sig.Params().At(i).Name(), fn.Name(), id.Name))
+							}
+						}
+					}
 				case *ast.CompositeLit:
 					for _, el := range x.Elts {
 						kv, ok := el.(*ast.KeyValueExpr)
